@@ -43,6 +43,28 @@ PROPS = {
              "thorough": {"checks": 40000, "shards": 16}},
         ],
     },
+    "C06": {
+        "level": "fault_enumeration",
+        "rule": "cases are (state in {indexed, linear}, storage in {memory, bolt file}, operation history of 2-14 ops from AddFact (ttl, "
+                "absolute/RFC3339 expires, deleteWith, generated or given ids), AddRule (ttl/expires/deleteWith), RemFact, RemRule, "
+                "EnableRule, SetParents, SetProp, Clear, reload; bolt also a 40-fact bulk write that grows the file). Pass A runs the "
+                "history and after every op compares model, live location and a location rebuilt from storage alone (ids, values incl. "
+                "expires, 7 searches, rule list, 2 probe events, parents, enabled flags). Pass B re-runs the history with the process "
+                "dying at the k-th storage write and checks that after reload every id is in its state before or after the "
+                "interrupted op. Pass C makes the j-th storage call fail and requires the enclosing operation (or NewLocation) to report "
+                "an error. quick: 3 drawn k and 3 drawn j per history; thorough: every k in [1,W] and every j in [1,N]. Non-trivial = "
+                "history has >= 1 cascade or overwrite and >= 3 storage writes. Distinct = distinct canonical JSON.",
+        "assumptions": COMMON_ASSUMPTIONS + [
+            "crash points are at storage-call granularity (a torn write inside Bolt is Bolt's business)",
+            "after an injected storage error only 'the operation reports an error' is required",
+            "DynamoDB and Cassandra back ends are unreachable offline and not exercised",
+        ],
+        "parts": [
+            {"name": "durability", "mode": "plain", "test": "TestC06",
+             "quick": {"checks": 400, "shards": 4},
+             "thorough": {"checks": 2500, "shards": 16}},
+        ],
+    },
     "C08": {
         "level": "exploration",
         "rule": "cases are dependency graphs over ids a..f built from AddFact/AddRule with deleteWith lists (chains, fans, cycles, "
@@ -151,6 +173,11 @@ TEXT = {
         "technique": _PBT + "stateful generated histories vs brute-force reference model (differential indexed/linear)",
         "level_text": "Generated-history exploration: every search/get result is compared with a brute-force model over the stored facts. Not a proof.",
         "level_note": "Trusted: reference matcher/model; sampled histories of <= 30 operations over 6 ids.",
+    },
+    "C06": {
+        "technique": _PBT + "generated histories x enumerated crash points and injected storage faults (wrapping core.Storage); live-vs-reloaded differential; per-id before/after oracle",
+        "level_text": "Fault enumeration inside generated histories: every (thorough) or three drawn (quick) storage-write crash points and storage-call failures per history; reload equivalence after every step. Not a proof.",
+        "level_note": "Trusted: fault-injecting storage wrapper (props/faultstore.go), reference model; crash = panic before the k-th write with all later writes dropped.",
     },
     "C08": {
         "technique": _PBT + "generated dependency graphs and deletion orders vs reference transitive-closure model (memory and storage)",
